@@ -61,7 +61,8 @@ fn addr_sweep(r: &mut Rep, a: &Args) {
                             1 => (o1, v, o2),
                             _ => (o1, o2, v),
                         };
-                        addr_case(r, ri, p4, p3, p2, (v + o1) % 512);
+                        let p1 = (v + o1) % 512;
+                        guarded(r, "C20|recursive-table-address|unexpected-panic", || format!("rectab {} {} {} {} {}", ri, p4, p3, p2, p1), |r| addr_case(r, ri, p4, p3, p2, p1));
                     }
                 }
             }
@@ -78,13 +79,15 @@ fn fill_table_at(host: u64, slot: usize, val: u64) {
     }
 }
 
-pub fn ctor(r: &mut Rep, ri: u16) {
-    simphys::init(View::Recursive(ri), 0, 0);
+pub fn ctor(r: &mut Rep, ri: u16, pbase: u64) {
+    simphys::init(View::Recursive(ri), pbase, 0);
     crate::simcpu::init();
     let s = sim();
     let rr = ri as u64;
     let l4_phys = s.phys_of(L4_FRAME);
     let other_phys = s.phys_of(7);
+    // a frame address that differs from the level-4 frame only in physical-address bits 48..51
+    let twin_phys = l4_phys ^ 0x0004_0000_0000_0000;
     // near-recursive candidate addresses need real memory: anonymous pages
     let mut cands: Vec<(u64, bool)> = vec![(va4(rr, rr, rr, rr), true)];
     for pos in 0..4 {
@@ -104,15 +107,16 @@ pub fn ctor(r: &mut Rep, ri: u16) {
                 continue; // address busy in this process: skip this candidate
             }
         }
-        let slot_contents: [(&str, u64); 6] = [
+        let slot_contents: [(&str, u64); 7] = [
             ("present->same", l4_phys | 3),
             ("present->other", other_phys | 3),
             ("nonpresent->same", l4_phys | 2),
             ("zero", 0),
             ("present+flags->same", l4_phys | 0x8000_0000_0000_0067),
             ("present-only->same", l4_phys | 1),
+            ("present->twin(differs-only-in-bits-48..51)", twin_phys | 3),
         ];
-        for cr3 in [l4_phys, l4_phys | 0x18, l4_phys | 0xfff, other_phys, other_phys | 0x8] {
+        for cr3 in [l4_phys, l4_phys | 0x18, l4_phys | 0xfff, other_phys, other_phys | 0x8, twin_phys] {
             for (sn, sv) in slot_contents {
                 // slot index the constructor must look at = p4 index of the address
                 let p4i = ((addr >> 39) & 0x1ff) as usize;
@@ -127,7 +131,7 @@ pub fn ctor(r: &mut Rep, ri: u16) {
                 let res = run_fault(|| RecursivePageTable::new(table).map(|_| ()));
                 r.ev(true);
                 r.transitions += 1;
-                let case = format!("ctor {} addr={:#x} cr3={:#x} slot={}", ri, addr, cr3, sn);
+                let case = format!("ctor {} {:#x} addr={:#x} cr3={:#x} slot={}", ri, pbase, addr, cr3, sn);
                 let present = sv & 1 == 1;
                 let frame_eq = (sv & 0x000f_ffff_ffff_f000) == (cr3 & 0x000f_ffff_ffff_f000);
                 let exp = if !rec { "NotRecursive" } else if !(present && frame_eq) { "NotActive" } else { "Ok" };
@@ -180,14 +184,15 @@ pub fn run(a: &Args) {
         let t: Vec<&str> = c.split_whitespace().collect();
         match t[0] {
             "rectab" => addr_case(&mut r, t[1].parse().unwrap(), t[2].parse().unwrap(), t[3].parse().unwrap(), t[4].parse().unwrap(), t[5].parse().unwrap()),
-            _ => ctor(&mut r, t[1].parse().unwrap()),
+            _ => ctor(&mut r, t[1].parse().unwrap(), t.get(2).map(|x| u64::from_str_radix(x.trim_start_matches("0x"), 16).unwrap()).unwrap_or(0)),
         }
         r.emit();
         return;
     }
     if a.extra.first().map(|s| s.as_str()) == Some("ctor") {
         let ri: u16 = a.extra[1].parse().unwrap();
-        ctor(&mut r, ri);
+        let pbase: u64 = a.extra.get(2).map(|x| u64::from_str_radix(x.trim_start_matches("0x"), 16).unwrap()).unwrap_or(0);
+        guarded(&mut r, "C20|RecursivePageTable::new|unexpected-panic", || format!("ctor {} {:#x}", ri, pbase), |r| ctor(r, ri, pbase));
         r.part = format!("constructor[R={}]", ri);
         r.sample(format!("ctor {} addr=(R,R,R,R+1) cr3=level-4 frame slot=present->same -> NotRecursive", ri));
     } else {
